@@ -388,6 +388,12 @@ func (re *rangeEngine) at(v ssa.Value, B *ssa.BasicBlock) sival {
 			if s == B && len(s.Preds) == 1 || edgeDominates(re.f, blk, s, B) {
 				if c, ok := re.constraint(ifi.Cond, s == t, v, blk); ok {
 					iv = meet(iv, c)
+				} else if _, isCall := stripConv(ifi.Cond).(*ssa.Call); isCall {
+					iv.unk = true // a predicate the analysis does not interpret guards this block
+				} else if u, isNot := ifi.Cond.(*ssa.UnOp); isNot {
+					if _, isCall := stripConv(u.X).(*ssa.Call); isCall {
+						iv.unk = true
+					}
 				}
 			}
 		}
